@@ -6,6 +6,7 @@ import (
 	"fmt"
 	"math/rand"
 	"runtime"
+	"sort"
 	"strconv"
 	"strings"
 	"sync"
@@ -128,48 +129,68 @@ func runDedupSchedule(rng *rand.Rand, ids []int) (events []string, results []int
 		time.Sleep(50 * time.Microsecond)
 	}
 	inflight := map[int]int{} // id -> number of upstream calls in flight
-	running := 0
-	collect := func() bool { // wait until nobody is running; false on timeout
-		for running > 0 {
+	leaderOf := map[int]int{} // id -> caller currently registered as leader
+	joined := map[int]int{}   // follower -> the leader whose request it joined
+	marked := map[int]bool{}  // leader -> markDone has run
+	// run lets the callers in ts run to their next yield (or to the end) and records their
+	// arrivals. Only a leader's markDone step lets more than one caller run (the leader and
+	// the followers it wakes); their arrivals are ordered marked-before-woke, which is the
+	// order the close of the channel imposes. false on timeout.
+	runN := func(t, v, expect int) bool {
+		s.state[t] = "running"
+		s.resume[t] <- v
+		var arrs []arrival
+		for n := 0; n < expect; n++ {
 			select {
 			case a := <-s.arrive:
-				running--
-				s.state[a.t] = "yield:" + a.site
-				switch a.site {
-				case "dedup.get.lead":
-					s.events = append(s.events, fmt.Sprintf("c:%d", a.t))
-					s.kinds = append(s.kinds, 'L')
-				case "dedup.get.join":
-					s.events = append(s.events, fmt.Sprintf("c:%d", a.t))
-					s.kinds = append(s.kinds, 'F')
-				case "up.call":
-					inflight[ids[a.t]]++
-					if inflight[ids[a.t]] > 1 {
-						overlap = true
-					}
-				case "dedup.get.marked":
-					s.events = append(s.events, fmt.Sprintf("m:%d", a.t))
-					// followers of this id wake up now and run until their "woke" yield
-					for f := 0; f < k; f++ {
-						if s.state[f] == "waiting" && ids[f] == ids[a.t] {
-							s.state[f] = "running"
-							running++
-						}
-					}
-				case "dedup.get.deleted":
-					s.events = append(s.events, fmt.Sprintf("d:%d", a.t))
-				case "dedup.get.woke":
-					s.events = append(s.events, fmt.Sprintf("w:%d", a.t))
-				}
+				arrs = append(arrs, a)
 			case t := <-finished:
-				running--
-				s.state[t] = "finished"
-			case <-time.After(2 * time.Second):
+				arrs = append(arrs, arrival{t, "finished"})
+			case <-time.After(5 * time.Second):
 				return false
+			}
+		}
+		sort.SliceStable(arrs, func(i, j int) bool {
+			return arrs[i].site == "dedup.get.marked" && arrs[j].site != "dedup.get.marked"
+		})
+		for _, a := range arrs {
+			if a.site == "finished" {
+				s.state[a.t] = "finished"
+				continue
+			}
+			s.state[a.t] = "yield:" + a.site
+			switch a.site {
+			case "dedup.get.lead":
+				s.events = append(s.events, fmt.Sprintf("c:%d", a.t))
+				s.kinds = append(s.kinds, 'L')
+				leaderOf[ids[a.t]] = a.t
+			case "dedup.get.join":
+				s.events = append(s.events, fmt.Sprintf("c:%d", a.t))
+				s.kinds = append(s.kinds, 'F')
+				if l, ok := leaderOf[ids[a.t]]; ok {
+					joined[a.t] = l
+				} else {
+					joined[a.t] = -1 // joined a request nobody leads: will be reported by the model
+				}
+			case "up.call":
+				inflight[ids[a.t]]++
+				if inflight[ids[a.t]] > 1 {
+					overlap = true
+				}
+			case "dedup.get.marked":
+				s.events = append(s.events, fmt.Sprintf("m:%d", a.t))
+			case "dedup.get.deleted":
+				s.events = append(s.events, fmt.Sprintf("d:%d", a.t))
+				if leaderOf[ids[a.t]] == a.t {
+					delete(leaderOf, ids[a.t])
+				}
+			case "dedup.get.woke":
+				s.events = append(s.events, fmt.Sprintf("w:%d", a.t))
 			}
 		}
 		return true
 	}
+	run := func(ts []int, vals []int) bool { return runN(ts[0], vals[0], 1) }
 	for {
 		var ready []int
 		for t := 0; t < k; t++ {
@@ -187,44 +208,39 @@ func runDedupSchedule(rng *rand.Rand, ids []int) (events []string, results []int
 		}
 		t := ready[rng.Intn(len(ready))]
 		site := strings.TrimPrefix(s.state[t], "yield:")
-		v := 0
+		ok := true
 		switch site {
 		case "up.call":
-			v = 1 + rng.Intn(3)
+			v := 1 + rng.Intn(3)
 			inflight[ids[t]]--
-			s.state[t] = "running"
-			running++
-			s.resume[t] <- v
-			// the next arrival of t is "upret": log the upstream return with its value
-			if !collect() {
-				deadlock = true
-			}
+			ok = run([]int{t}, []int{v})
 			if s.state[t] == "yield:dedup.get.upret" {
 				s.events = append(s.events, fmt.Sprintf("u:%d:%d", t, v))
 			}
-			continue
 		case "dedup.get.join":
-			// it will block in wait() until the leader's markDone — unless the request is done already
-			s.state[t] = "running"
-			running++
-			s.resume[t] <- 0
-			select {
-			case a := <-s.arrive: // woke immediately (request already done)
-				running--
-				s.state[a.t] = "yield:" + a.site
-				if a.site == "dedup.get.woke" {
-					s.events = append(s.events, fmt.Sprintf("w:%d", a.t))
-				}
-			case <-time.After(300 * time.Microsecond):
-				running--
+			if l, has := joined[t]; has && l >= 0 && !marked[l] {
+				// blocks in wait() until its leader's markDone; it runs again in that step
 				s.state[t] = "waiting"
+				s.resume[t] <- 0
+			} else {
+				ok = run([]int{t}, []int{0})
 			}
-			continue
+		case "dedup.get.upret":
+			// this step runs markDone: the leader and every follower waiting on it run
+			// (the followers hold their token already: they are inside wait())
+			marked[t] = true
+			n := 1
+			for f := 0; f < k; f++ {
+				if s.state[f] == "waiting" && joined[f] == t {
+					s.state[f] = "running"
+					n++
+				}
+			}
+			ok = runN(t, 0, n)
+		default:
+			ok = run([]int{t}, []int{0})
 		}
-		s.state[t] = "running"
-		running++
-		s.resume[t] <- v
-		if !collect() {
+		if !ok {
 			deadlock = true
 			break
 		}
